@@ -22,6 +22,7 @@ import ast
 import re
 from typing import Any, Dict, List, Optional, Sequence, Set, Tuple
 
+from engine.srcmatch import U
 from engine.fold import EnumMember, Folder
 from engine.kvtext import conversion_of, emits_in, flatten as kv_flatten
 from engine.model import AnalysisError, Program, base_names, dotted, mro, walk_no_nested
@@ -179,7 +180,7 @@ def run(ctx: Any, prog: Program) -> None:
             vals, layout = BSP_CONFIGS['standard-v20']
             ri = Extractor(bsp, fold, Config(dict(vals), layout), 'BSP', inline).extract(rd)
             wi = Extractor(bsp, fold, Config(dict(vals), layout), 'BSP', inline).extract(wr)
-            rfns = [rd] + [inline[k] for k in inline if k in ast.unparse(rd)]
+            rfns = [rd] + [inline[k] for k in inline if k in U(rd)]
             link_records(ctx, 'C11.L3', bsp, v, records(ri), records(wi), rfns, wr, f'BSP._lmp_write_{v}')
         # L2: arity (configuration independent: check against every variant the atom may use)
         for kind, fn in (('read', rd), ('write', wr)):
@@ -272,20 +273,20 @@ def run(ctx: Any, prog: Program) -> None:
                 guarded = False
                 for g in walk_no_nested(wr):
                     if isinstance(g, ast.If) and any(isinstance(x, ast.Raise) for x in g.body):
-                        t = ast.unparse(g.test)
+                        t = U(g.test)
                         if src and f'len({src})' in t and str(width) in t:
                             guarded = True
                         # length test on the encoded bytes
                         if src and re.search(r'len\(.*' + re.escape(src) + r'.*\)', t) and str(width) in t:
                             guarded = True
-                ctx.check('C11.L6', guarded, bsp, c, f'`{ast.unparse(c)[:70]}` packs `{src}` into a {width}-byte field without a raising length check: struct silently truncates longer values',
+                ctx.check('C11.L6', guarded, bsp, c, f'`{U(c)[:70]}` packs `{src}` into a {width}-byte field without a raising length check: struct silently truncates longer values',
                           func=f'BSP._lmp_write_{v}', text=f'{v}: {width}s from {src}')
     tw = ms['_lmp_write_textures']
     # the reader looks for the terminator within 128 bytes of the offset: name + NUL must fit, i.e. len(name) <= 127
     rd_tex = ms['_lmp_read_textures']
     rlim = [fold_int(fold, a) for c in ast.walk(rd_tex) if isinstance(c, ast.Call) and isinstance(c.func, ast.Attribute) and c.func.attr == 'index' and len(c.args) == 3
             for a in [c.args[2].right if isinstance(c.args[2], ast.BinOp) else c.args[2]]]
-    guards_t = [g for g in walk_no_nested(tw) if isinstance(g, ast.If) and any(isinstance(x, ast.Raise) for x in g.body) and isinstance(g.test, ast.Compare) and ast.unparse(g.test.left) == 'len(tex)']
+    guards_t = [g for g in walk_no_nested(tw) if isinstance(g, ast.If) and any(isinstance(x, ast.Raise) for x in g.body) and isinstance(g.test, ast.Compare) and U(g.test.left) == 'len(tex)']
     if not guards_t:
         ctx.check('C11.L6', False, bsp, tw, 'texture names are written without any length check: the reader only searches 128 bytes for the terminator', func='BSP._lmp_write_textures', text='texture name length check')
     elif len(guards_t) != 1 or len(rlim) != 1 or rlim[0] is None or fold_int(fold, guards_t[0].test.comparators[0]) is None:
@@ -297,7 +298,7 @@ def run(ctx: Any, prog: Program) -> None:
         if max_ok is None:
             ctx.shape('C11.L6', False, bsp, guards_t[0], 'comparison operator of the limit not recognised', func='BSP._lmp_write_textures', text='texture name length check')
         else:
-            ctx.check('C11.L6', max_ok + 1 <= rlim[0], bsp, guards_t[0], f'names of up to {max_ok} characters are accepted (`{ast.unparse(guards_t[0].test)}`), i.e. {max_ok + 1} bytes with the terminator, but the reader searches only '
+            ctx.check('C11.L6', max_ok + 1 <= rlim[0], bsp, guards_t[0], f'names of up to {max_ok} characters are accepted (`{U(guards_t[0].test)}`), i.e. {max_ok + 1} bytes with the terminator, but the reader searches only '
                       f'{rlim[0]} bytes for it', func='BSP._lmp_write_textures', text='texture name length check')
     # ---- L11 -------------------------------------------------------------------------------------------------
     n_pool = string_pool_check(ctx, 'C11.L11', bsp, tw, 'BSP._lmp_write_textures', b'\0')
@@ -352,7 +353,7 @@ def run(ctx: Any, prog: Program) -> None:
                             carried |= local_src[x.id]
                 tested = elem_attrs(path_tests)
                 missing = sorted(carried - tested)
-                ctx.check('C11.L14', not missing, bsp, cont, f'BSP.{qn} skips the rest of the record when `{" and ".join(ast.unparse(t)[:40] for t in reversed(path_tests))}`, but the skipped part also writes '
+                ctx.check('C11.L14', not missing, bsp, cont, f'BSP.{qn} skips the rest of the record when `{" and ".join(U(t)[:40] for t in reversed(path_tests))}`, but the skipped part also writes '
                           f'{missing}: an element whose {(missing or ["?"])[0]} is set loses it (the reader rebuilds skipped records from defaults)', func=f'BSP.{qn}', text=f'{qn}: record skip covers every carried field')
     if n_skip < 1:
         raise AnalysisError('L14: no record-skipping `continue` found in the lump writers (one confirmed by hand: _lmp_write_bmodels)')
@@ -365,12 +366,12 @@ def run(ctx: Any, prog: Program) -> None:
             if not (isinstance(st, ast.Assign) and isinstance(st.targets[0], ast.Attribute) and st.targets[0].attr == 'data' and isinstance(st.targets[0].value, ast.Subscript)
                     and dotted(st.targets[0].value.value) == 'self.lumps'):
                 continue
-            lump = ast.unparse(st.targets[0].value.slice)
+            lump = U(st.targets[0].value.slice)
             n_aux += 1
             conds = []
             anc = bsp.parents.get(st)
             while anc is not None and anc is not fn:
-                if isinstance(anc, ast.If) and re.search(r'\bversion\b|VERSIONS|game_ver|is_vitamin', ast.unparse(anc.test)):
+                if isinstance(anc, ast.If) and re.search(r'\bversion\b|VERSIONS|game_ver|is_vitamin', U(anc.test)):
                     conds.append(anc.test)
                 anc = bsp.parents.get(anc)
             if not conds:
@@ -380,13 +381,13 @@ def run(ctx: Any, prog: Program) -> None:
             mirrored = False
             if rd is not None:
                 for acc in ast.walk(rd):
-                    if isinstance(acc, ast.Subscript) and dotted(acc.value) == 'self.lumps' and ast.unparse(acc.slice) == lump:
+                    if isinstance(acc, ast.Subscript) and dotted(acc.value) == 'self.lumps' and U(acc.slice) == lump:
                         a2 = bsp.parents.get(acc)
                         while a2 is not None and a2 is not rd:
-                            if isinstance(a2, ast.If) and any(ast.unparse(a2.test) == ast.unparse(c) for c in conds):
+                            if isinstance(a2, ast.If) and any(U(a2.test) == U(c) for c in conds):
                                 mirrored = True
                             a2 = bsp.parents.get(a2)
-            ctx.check('C11.L15', mirrored, bsp, st, f'BSP.{qn} stores the rebuilt {lump} lump only when `{ast.unparse(conds[0])[:60]}`, but the reader takes its values from that lump for every version: '
+            ctx.check('C11.L15', mirrored, bsp, st, f'BSP.{qn} stores the rebuilt {lump} lump only when `{U(conds[0])[:60]}`, but the reader takes its values from that lump for every version: '
                       'for other versions the values the view holds are silently replaced by the stale or empty lump', func=f'BSP.{qn}', text=f'{qn}: {lump} stored')
     if n_aux < 10:
         raise AnalysisError(f'L15: only {n_aux} auxiliary lump stores found in the writers')
@@ -399,7 +400,7 @@ def run(ctx: Any, prog: Program) -> None:
     else:
         c_ = cnt[0]
         exact = len(c_.ops) == 1 and isinstance(c_.ops[0], ast.Eq) and isinstance(c_.comparators[0], ast.Constant) and c_.comparators[0].value == 4
-        ctx.check('C11.L16', exact, bsp, c_, f'`{ast.unparse(c_)}`: an output value is five fields joined by exactly four commas; a wider test also takes ordinary keyvalues with more commas '
+        ctx.check('C11.L16', exact, bsp, c_, f'`{U(c_)}`: an output value is five fields joined by exactly four commas; a wider test also takes ordinary keyvalues with more commas '
                   '(colour lists, point lists) for outputs whenever their last fields happen to be numbers - the key disappears and a bogus output is written back', func='BSP._lmp_read_ents', text='output detection by comma count')
     # ---- L17: negated indexes --------------------------------------------------------------------------------------------
     n_neg = 0
@@ -419,14 +420,14 @@ def run(ctx: Any, prog: Program) -> None:
                     idx0 = fn.body.index(inits[0])
                     reserved = any(isinstance(st, ast.Expr) and isinstance(st.value, ast.Call) and isinstance(st.value.func, ast.Attribute) and st.value.func.attr == 'append' and dotted(st.value.func.value) == tbl
                                    for st in fn.body[idx0 + 1:] if not isinstance(st, (ast.For, ast.While)))
-                ctx.check('C11.L17', reserved, bsp, u, f'BSP.{qn} writes `{ast.unparse(u)}` for a reversed element: if that element is the first one put into `{tbl}` its index is 0 and -0 is 0, so it reads back as the '
+                ctx.check('C11.L17', reserved, bsp, u, f'BSP.{qn} writes `{U(u)}` for a reversed element: if that element is the first one put into `{tbl}` its index is 0 and -0 is 0, so it reads back as the '
                           f'forward element. `{tbl}` must start with a reserved dummy entry on every path, not only when the first element happens to be reversed', func=f'BSP.{qn}', text=f'{qn}: slot 0 of {tbl} reserved')
     if n_neg < 1:
         raise AnalysisError('L17: no negated table index found in the lump writers (surfedges confirmed by hand)')
     # ---- L13 -------------------------------------------------------------------------------------------------
     bf = prog.module('binformat')
     foe = bf.func('find_or_extend')
-    zips = [c for c in ast.walk(foe) if isinstance(c, ast.Call) and dotted(c.func) == 'zip' and any('islice' in ast.unparse(a) or isinstance(a, ast.Subscript) for a in c.args)]
+    zips = [c for c in ast.walk(foe) if isinstance(c, ast.Call) and dotted(c.func) == 'zip' and any('islice' in U(a) or isinstance(a, ast.Subscript) for a in c.args)]
     eqs = [c for c in ast.walk(foe) if isinstance(c, ast.Compare) and isinstance(c.ops[0], ast.Eq) and any(isinstance(x, ast.Subscript) and isinstance(x.slice, ast.Slice) for x in [c.left] + c.comparators)]
     if not zips and not eqs:
         ctx.shape('C11.L13', False, bf, foe, 'sublist comparison of find_or_extend not found', func='find_or_extend', text='whole sublist must fit')
@@ -434,7 +435,7 @@ def run(ctx: Any, prog: Program) -> None:
         ctx.check('C11.L13', True, bf, eqs[0], 'list equality compares lengths as well', func='find_or_extend', text='whole sublist must fit')
     else:
         strict = any(k.arg == 'strict' and isinstance(k.value, ast.Constant) and k.value.value is True for z in zips for k in z.keywords)
-        bound = any(isinstance(c, ast.Compare) and 'len(item_list)' in ast.unparse(c) and 'len(items)' in ast.unparse(c) for c in ast.walk(foe))
+        bound = any(isinstance(c, ast.Compare) and 'len(item_list)' in U(c) and 'len(items)' in U(c) for c in ast.walk(foe))
         ctx.check('C11.L13', strict or bound, bf, zips[0], 'the candidate run is compared with zip() against a slice of the list: at the tail the slice is shorter and zip() stops early, so a sublist of which only a prefix is present '
                   'counts as found - the returned (index, count) then covers elements that were never added (edges / primitives / brush sides of the last records)', func='find_or_extend', text='whole sublist must fit')
     # ---- L12 -------------------------------------------------------------------------------------------------
@@ -453,7 +454,7 @@ def run(ctx: Any, prog: Program) -> None:
             ctx.shape('C11.L12', False, bsp, wr, f'{v}: no loop over `{param}` found', func=f'BSP._lmp_write_{v}', text=f'{v}: live iteration of {param}')
         for lp in loops:
             live = isinstance(lp.iter, ast.Name) or (isinstance(lp.iter, ast.Call) and dotted(lp.iter.func) == 'enumerate' and isinstance(lp.iter.args[0], ast.Name))
-            ctx.check('C11.L12', live, bsp, lp, f'`{ast.unparse(grows[0])}` hands out indexes into `{param}` and appends elements that are not listed yet; the record loop runs over `{ast.unparse(lp.iter)}`, '
+            ctx.check('C11.L12', live, bsp, lp, f'`{U(grows[0])}` hands out indexes into `{param}` and appends elements that are not listed yet; the record loop runs over `{U(lp.iter)}`, '
                       'a snapshot, so the appended elements are referenced by index but never written', func=f'BSP._lmp_write_{v}', text=f'{v}: live iteration of {param}')
     # decoder: the search for the next zero marker must not be bounded by the *decoded* size (an isolated zero costs two bytes, so the
     # encoded row can be longer than the decoded one)
@@ -463,19 +464,19 @@ def run(ctx: Any, prog: Program) -> None:
     elif len(idx_calls[0].args) >= 3:
         lim = idx_calls[0].args[2]
         ldefs = [n.value for n in ast.walk(bsp.func('runlength_decode')) if isinstance(n, ast.Assign) and dotted(n.targets[0]) == dotted(lim)]
-        src_l = ast.unparse(lim) + ' ' + ' '.join(ast.unparse(d) for d in ldefs)
+        src_l = U(lim) + ' ' + ' '.join(U(d) for d in ldefs)
         if 'ret_bytes' in src_l or 'max_clusters' in src_l:
-            ctx.check('C11.L7', False, bsp, idx_calls[0], f'`{ast.unparse(idx_calls[0])}` stops searching for zero markers after the decoded row length: a row with isolated zero bytes is longer encoded than decoded, so its later markers '
+            ctx.check('C11.L7', False, bsp, idx_calls[0], f'`{U(idx_calls[0])}` stops searching for zero markers after the decoded row length: a row with isolated zero bytes is longer encoded than decoded, so its later markers '
                       'are copied as literal data', text='decode marker search unbounded')
         else:
-            ctx.shape('C11.L7', ast.unparse(lim) in ('size', 'len(data)'), bsp, idx_calls[0], 'search bound', text='decode marker search unbounded')
+            ctx.shape('C11.L7', U(lim) in ('size', 'len(data)'), bsp, idx_calls[0], 'search bound', text='decode marker search unbounded')
     else:
         ctx.check('C11.L7', True, bsp, idx_calls[0], 'search runs to the end of the data', text='decode marker search unbounded')
     # ---- L7 --------------------------------------------------------------------------------------------------
     enc = bsp.func('runlength_encode')
     dec = bsp.func('runlength_decode')
-    esrc, dsrc = ast.unparse(enc), ast.unparse(dec)
-    inner = [n for n in ast.walk(enc) if isinstance(n, ast.While) and ast.unparse(n.test) == 'dist > 0']
+    esrc, dsrc = U(enc), U(dec)
+    inner = [n for n in ast.walk(enc) if isinstance(n, ast.While) and U(n.test) == 'dist > 0']
     caps = [c.args[0].value for n in inner for c in ast.walk(n) if isinstance(c, ast.Call) and dotted(c.func) == 'min' and len(c.args) == 2 and isinstance(c.args[0], ast.Constant) and dotted(c.args[1]) == 'dist']
     decs = [st.value.value for n in inner for st in n.body if isinstance(st, ast.AugAssign) and isinstance(st.op, ast.Sub) and dotted(st.target) == 'dist' and isinstance(st.value, ast.Constant)]
     if len(inner) != 1 or len(caps) != 1 or len(decs) != 1:
@@ -483,7 +484,7 @@ def run(ctx: Any, prog: Program) -> None:
     else:
         ctx.check('C11.L7', caps[0] == decs[0] == 255, bsp, inner[0], f'runlength_encode emits a count byte of at most {caps[0]} but advances the remaining run by {decs[0]}: both must be 255 (one byte), '
                   'otherwise zeros are lost or duplicated for runs longer than the cap', text='encode zero-run records')
-        ctx.shape('C11.L7', [ast.unparse(s_) for s_ in inner[0].body][:2] == ['result.append(0)', f'result.append(min({caps[0]}, dist))'], bsp, inner[0], 'record is (0x00, count)', text='encode record layout')
+        ctx.shape('C11.L7', [U(s_) for s_ in inner[0].body][:2] == ['result.append(0)', f'result.append(min({caps[0]}, dist))'], bsp, inner[0], 'record is (0x00, count)', text='encode record layout')
     ctx.shape('C11.L7', 'dist = zero_end - zero_ind' in esrc and 'pos = zero_end' in esrc, bsp, enc, 'the encoder must measure the whole zero run and continue after it', text='encode run length and advance')
     ctx.shape('C11.L7', 'while zero_end < size and data[zero_end] == 0' in esrc, bsp, enc, 'the encoder must scan to the end of the zero run without leaving the buffer', text='encode run scan')
     ctx.shape('C11.L7', 'zeros = data[zero_ind + 1]' in dsrc and 'result += bytes(zeros)' in dsrc, bsp, dec, 'the decoder must read the count byte following the zero and emit that many zeros', text='decode count byte')
@@ -503,8 +504,8 @@ def run(ctx: Any, prog: Program) -> None:
                     if s.quoted:
                         n_slots += 1
                         conv, _ = conversion_of(s.node)
-                        ctx.check('C11.L8', conv == 'escape_text', bsp, c, f'`{ast.unparse(s.node)}` is written into the entity lump inside quotes ({s.position} position) without escape_text(): '
-                                  'a quote or backslash in it corrupts the lump for the escape-decoding reader', func='BSP.write_ent_data', text=f'{s.position} slot {ast.unparse(s.node)}')
+                        ctx.check('C11.L8', conv == 'escape_text', bsp, c, f'`{U(s.node)}` is written into the entity lump inside quotes ({s.position} position) without escape_text(): '
+                                  'a quote or backslash in it corrupts the lump for the escape-decoding reader', func='BSP.write_ent_data', text=f'{s.position} slot {U(s.node)}')
     if n_slots < 2:
         raise AnalysisError('write_ent_data: key/value line not found')
     re_ = ms['_lmp_read_ents']
@@ -525,8 +526,8 @@ def run(ctx: Any, prog: Program) -> None:
     else:
         first = ast.literal_eval(consts[0].args[1])
         ctx.check('C11.L9', first == -1, bsp, consts[0], f'the physics lump ends with a header record whose model index is {first}; the reader stops on -1 only', func='BSP._lmp_write_bmodels', text='sentinel written')
-    rt = [n for n in walk_no_nested(rb) if isinstance(n, ast.If) and ast.unparse(n.test) == 'mdl_ind == -1' and any(isinstance(x, ast.Break) for x in n.body)]
-    first_field_ok = any(isinstance(n, ast.Assign) and isinstance(n.targets[0], ast.Tuple) and ast.unparse(n.targets[0].elts[0]) == 'mdl_ind' and 'struct_read' in ast.unparse(n.value) for n in walk_no_nested(rb))
+    rt = [n for n in walk_no_nested(rb) if isinstance(n, ast.If) and U(n.test) == 'mdl_ind == -1' and any(isinstance(x, ast.Break) for x in n.body)]
+    first_field_ok = any(isinstance(n, ast.Assign) and isinstance(n.targets[0], ast.Tuple) and U(n.targets[0].elts[0]) == 'mdl_ind' and 'struct_read' in U(n.value) for n in walk_no_nested(rb))
     ctx.shape('C11.L9', bool(rt) and first_field_ok, bsp, rt[0] if rt else rb, 'the reader must stop on a header whose first field is -1', func='BSP._lmp_read_bmodels', text='sentinel consumed')
 
 
